@@ -162,7 +162,55 @@ def runBatcher (line : String) : String :=
     | _, _, _ => "bad-op"
   | _ => "bad-op"
 
+/-! ### stream `batcher_blocking`: (bl API OP CTX RX CAP PREFILL TIMEOUT_MS) → true|false|ok|err(X)|err(noitem)|panic -/
+
+def api? : Sexp → Option Api
+  | .atom "sync" => some .sync
+  | .atom "tokio" => some .tokio
+  | _ => none
+
+def ctx? : Sexp → Option Ctx
+  | .atom "plain" => some .plainThread
+  | .atom "mt" => some .tokioMultiThread
+  | .atom "ct" => some .tokioCurrentThread
+  | _ => none
+
+def rxKind? : Sexp → Option RxKind
+  | .atom "live" => some .live
+  | .atom "stalled" => some .stalled
+  | .atom "gone" => some .gone
+  | _ => none
+
+def pathName : BlockingPath → String
+  | .condvar => "condvar"
+  | .blockInPlace => "block_in_place"
+  | .handleBlockOn => "handle_block_on"
+
+def runBlocking (line : String) : String :=
+  match Sexp.parse line with
+  | some (.list [.atom "bl", api, .atom op, ctx, rx, cap, prefill, timeout]) =>
+    match api? api, ctx? ctx, rxKind? rx, cap.nat?.filter (· ≥ 1), prefill.nat?, timeout.nat? with
+    | some api, some ctx, some rx, some cap, some prefill, some timeout =>
+      let cfg := Cfg.real cap
+      let path := blockingPath api ctx
+      let rxn := match rx with | .live => "live" | .stalled => "stalled" | .gone => "gone"
+      let sig := s!"{pathName path},{op},rx={rxn}"
+      if pathPanics path ctx then s!"panic\t{sig}"
+      else if op = "flush" then
+        match blockingFlush cfg rx prefill timeout with
+        | some b => s!"{b}\t{sig}"
+        | none => s!"blocked\t{sig}"
+      else if op = "send" then
+        match blockingSend cfg rx prefill timeout 999 with
+        | some .ok => s!"ok\t{sig}"
+        | some (.handedBack y) => s!"err({y})\t{sig}"
+        | some .errNoItem => s!"err(noitem)\t{sig}"
+        | none => s!"blocked\t{sig}"
+      else "bad-op"
+    | _, _, _, _, _, _ => "bad-op"
+  | _ => "bad-op"
+
 def streams : List (String × (String → String)) :=
-  [("batcher", runBatcher)]
+  [("batcher", runBatcher), ("batcher_blocking", runBlocking)]
 
 end EmitModel.Driver.Batcher
